@@ -1540,6 +1540,14 @@ class MemoryUsageFrame(MemoryUsage):
     def combine_kwargs(self):
         return {"is_dataframe": is_dataframe_like(self.frame._meta)}
 
+    def _simplify_up(self, parent, dependents):
+        result = super()._simplify_up(parent, dependents)
+        if isinstance(result, MemoryUsageFrame) and self._index:
+            # The "Index" row of the result is not a column of the frame:
+            # pruning the frame does not replace the selection
+            result = type(parent)(result, parent.operand("columns"))
+        return result
+
     @staticmethod
     def reduction_combine(x, is_dataframe):
         if is_dataframe:
